@@ -4,7 +4,7 @@
 usage: seed_eval.py <worktree> <seed-name> <property> [check ids to run ...]
   1. in the worktree: existing tests pass with the change; demo exits 1 with / 0 without the change
   2. copy patch.diff, demo.py, meta.json to /verif/seeded/<seed-name>/
-  3. apply the patch to /repo, run the named checks (quick tier), undo the patch
+  3. run the named checks (quick tier) against the worktree (VERIF_REPO=<worktree>); /repo is not touched
 """
 import json
 import os
@@ -27,27 +27,33 @@ r = sh("/venv/bin/python -m pytest -q -p no:cacheprovider -x 2>&1 | tail -1", wt
 res["tests_with_change"] = r.stdout.strip()
 r1 = sh("/venv/bin/python _seed/demo.py", wt)
 res["demo_with_change_rc"] = r1.returncode
-sh("git stash", wt)
+# (no git stash: the stash is shared by all worktrees of a repository, and concurrent agents use it)
+same = sh("git diff", wt).stdout.strip() == open(f"{wt}/_seed/patch.diff").read().strip()
+res["worktree_matches_patch"] = same
+assert sh("git apply -R _seed/patch.diff", wt).returncode == 0, "cannot revert the patch in the worktree"
 r0 = sh("/venv/bin/python _seed/demo.py", wt)
 res["demo_without_change_rc"] = r0.returncode
-sh("git stash pop", wt)
+assert sh("git apply _seed/patch.diff", wt).returncode == 0
 print(json.dumps(res, indent=1))
-ok = "71 passed" in res["tests_with_change"] and r1.returncode != 0 and r0.returncode == 0
+ok = "71 passed" in res["tests_with_change"] and r1.returncode != 0 and r0.returncode == 0 and same
 dst = f"/verif/seeded/{name}"
 os.makedirs(dst, exist_ok=True)
 for f in ("patch.diff", "demo.py", "meta.json"):
     shutil.copy(f"{wt}/_seed/{f}", dst)
 meta = json.load(open(f"{dst}/meta.json"))
 meta.update(property=prop, confirmed=ok, confirmation=res, checks={})
-assert sh("git status --porcelain", "/repo").stdout.strip() == "", "/repo is dirty"
-a = sh(f"git apply {dst}/patch.diff", "/repo")
+# the checks run against the scratch worktree (VERIF_REPO), which carries the change; /repo is not touched,
+# the patch is only required to apply to it
+a = sh(f"git apply --check {dst}/patch.diff", "/repo")
 if a.returncode:
     print("patch does not apply to /repo:", a.stderr)
     sys.exit(2)
+assert sh("git diff --quiet", wt).returncode == 1, "worktree carries no change"
 try:
     for c in checks:
         t0 = time.time()
-        p = subprocess.run(["./check", c, "--tier", "quick"], cwd="/verif", capture_output=True, text=True)
+        p = subprocess.run(["./check", c, "--tier", "quick"], cwd="/verif", capture_output=True, text=True,
+                           env=dict(os.environ, VERIF_REPO=wt))
         lines = [l for l in p.stdout.splitlines() if l.startswith(("VIOLATION", "  ", "KNOWN", "C"))][:8]
         meta["checks"][c] = {"rc": p.returncode, "wall_s": round(time.time() - t0, 1), "output": lines}
         print(c, "rc", p.returncode, f"{time.time()-t0:.0f}s")
@@ -55,7 +61,6 @@ try:
         if p.returncode == 2:
             print(p.stderr[-1500:])
 finally:
-    sh("git checkout -- .", "/repo")
     subprocess.run("git -C /verif checkout -- evidence 2>/dev/null", shell=True)
 meta["detected_by"] = [c for c, v in meta["checks"].items() if v["rc"] == 1]
 meta["ran"] = "tools/seed_eval.py " + " ".join(sys.argv[1:])
